@@ -372,6 +372,7 @@ func cmdCheck(argv []string) int {
 		shortToFull[shortKey(fr.Key)] = fr.Key
 	}
 	var vacuous []string
+	loopReach := map[string][]string{}
 	for _, o := range all {
 		solverMs += o.Ms
 		if o.Kind == "vacuity" {
@@ -385,6 +386,13 @@ func cmdCheck(argv []string) int {
 			default:
 				fr.PreSat = "undecided (" + o.Result + ")"
 			}
+			continue
+		}
+		if o.Kind == "vacuity-loop" {
+			// sat: an iteration can complete (good); unsat: the invariants assumed at the loop head
+			// contradict each other or the loop condition -- everything inside would be vacuously true
+			lk := o.Func + "|" + o.Name[strings.LastIndex(o.Name, ":")+1:]
+			loopReach[lk] = append(loopReach[lk], o.Result)
 			continue
 		}
 		if o.Kind == "vacuity-return" {
@@ -464,6 +472,18 @@ func cmdCheck(argv []string) int {
 		}
 	}
 	_ = vacuous
+	for k, rs := range loopReach {
+		allUnreach := true
+		for _, r := range rs {
+			if r != "cover-unreachable" {
+				allUnreach = false
+			}
+		}
+		if allUnreach {
+			f := strings.SplitN(k, "|", 2)
+			engineErrs = append(engineErrs, fmt.Sprintf("%s: no iteration of %s can complete under the assumed invariants (vacuous loop proof)", f[0], f[1]))
+		}
+	}
 	for _, er := range engineErrs {
 		fmt.Printf("UNDECIDED property=%s reason=%s\n", *prop, er)
 		if exit == 0 {
@@ -584,23 +604,23 @@ func writeEvidence(verif, prop, tier string, seed int, wall, loadS, genS, solver
 		"wall_s":      wall,
 		"violations":  len(failed),
 		"coverage": map[string]interface{}{
-			"obligations":              nObl - len(knownHit),
-			"discharged":               nDis,
+			"obligations":               nObl - len(knownHit),
+			"discharged":                nDis,
 			"known_finding_obligations": len(knownHit),
-			"checker_cmd":              fmt.Sprintf("./check %s %s", tier, prop),
-			"trusted_base":             trusted,
-			"samples":                  samples,
-			"functions_under_contract": freps,
-			"lemmas":                   lnames,
-			"per_obligation":           oreps,
-			"by_backend":               bySolver,
-			"solver_time_s":            solverS,
-			"load_s":                   loadS,
-			"vcgen_s":                  genS,
-			"known_findings":           kf,
-			"failed":                   fl,
-			"engine_errors":            engineErrs,
-			"contract_files":           cs.Files,
+			"checker_cmd":               fmt.Sprintf("./check %s %s", tier, prop),
+			"trusted_base":              trusted,
+			"samples":                   samples,
+			"functions_under_contract":  freps,
+			"lemmas":                    lnames,
+			"per_obligation":            oreps,
+			"by_backend":                bySolver,
+			"solver_time_s":             solverS,
+			"load_s":                    loadS,
+			"vcgen_s":                   genS,
+			"known_findings":            kf,
+			"failed":                    fl,
+			"engine_errors":             engineErrs,
+			"contract_files":            cs.Files,
 		},
 		"assumptions": asm,
 	}
